@@ -287,7 +287,7 @@ _C13_FIRST = [
     "[a]: /u\n\n# h\n",
     "# a\n\n### b\n\n# a\n",
     "1. a\n1. b\n- c\n+ d\n",
-    "<!-- pyml disable-num-lines 5 md041,md047-->\nx",
+    "<!-- pyml disable-num-lines 5 md041,md047,md004,md012,md022,md009-->\nx",
     "```text\nunclosed\n",
     "*a* __b__ <div>\n\n    code\n",
     "> q\n> - l\n\n\n\n* * *\n",
